@@ -422,3 +422,33 @@ func ZZ_C21_rights() {
 	}
 	zzDposApplyAndRollback(s, []interfaces.Transaction{tx})
 }
+
+// ZZ_C21_returndeposit: a ReturnDepositCoin transaction of a producer that is
+// active, inactive or cancelled (the transaction check admits any producer
+// whose available amount covers what leaves the deposit address), spending
+// 1..2 recorded deposit outputs, with 0..2 outputs each being change to the
+// deposit address or not.
+func ZZ_C21_returndeposit() {
+	s := zzDposState()
+	st := []ProducerState{Active, Inactive, Canceled}[nd.Choose("state", 3)]
+	p := zzDposProducer(s, 0, st, DPoSV1, 0)
+	if st == Canceled {
+		p.cancelHeight = zzDH - 50
+	}
+	code := append(append([]byte{33}, p.info.OwnerKey...), common.STANDARD)
+	tx := &zzStTx{typ: common2.ReturnDepositCoin, id: common.Uint256{0x21, 0x20}, pld: &payload.ReturnDepositCoin{},
+		progs: []*pg.Program{{Code: code, Parameter: []byte{}}}}
+	for i, zzn := 0, nd.Choose("inputs", 2)+1; i < zzn; i++ {
+		in := &common2.Input{Previous: common2.OutPoint{TxID: common.Uint256{0xA0}, Index: uint16(i)}}
+		s.DepositOutputs[in.ReferKey()] = zzStAmount("recordedDepositOutput")
+		tx.ins = append(tx.ins, in)
+	}
+	for i, zzn := 0, nd.Choose("outputs", 3); i < zzn; i++ {
+		o := &common2.Output{Value: zzStAmount("outputValue"), ProgramHash: common.Uint168{0x21, 9}}
+		if nd.Bool("change") {
+			o.ProgramHash = p.depositHash
+		}
+		tx.outs = append(tx.outs, o)
+	}
+	zzDposApplyAndRollback(s, []interfaces.Transaction{tx})
+}
